@@ -138,7 +138,7 @@ theorem getSub_some (h : SubHdr) (ns : List String) (fl : Flags) (pre : List Str
     cases hc
     refine ⟨false, ?_⟩
     unfold getSub
-    simp only [he, settled, prunedK, Option.isNone_some, Option.isSome_some, Bool.false_and, truthyO, ht, validNameO]
+    simp only [he, settled, prunedK, Option.isNone_some, Option.isSome_some, Bool.false_and, truthyO, validNameO]
     cases fl.fail <;> cases h.required <;> simp [ht]
   | none =>
     simp only [he] at hc
@@ -155,7 +155,7 @@ theorem getSub_some (h : SubHdr) (ns : List String) (fl : Flags) (pre : List Str
       unfold getSub
       simp only [he, hs, settled, prunedK, hf, Option.isNone_none, Option.isSome_none, List.isEmpty_cons, Bool.not_false,
         Bool.and_self, Bool.true_and, if_true, List.head?_cons, Option.map_some, truthyO, ht, validNameO, List.headD_cons]
-      cases fl.fail <;> cases h.required <;> simp [ht]
+      cases fl.fail <;> cases h.required <;> simp
 
 def findP (n : String) : List (String × P) → Option P
   | [] => .none
